@@ -30,7 +30,7 @@ WATCHDOG = {"quick": 300, "thorough": 900}
 
 
 def lanes(tier):
-    return [("plain", "plain", 160 if tier == "quick" else 10000)]
+    return [("plain", "plain", 480 if tier == "quick" else 10000)]
 
 
 def canon_sets(text, sample):
